@@ -30,6 +30,9 @@ struct ring {
 };
 
 struct sortplan {
+	/* The OU[ marker that opens the region */
+	struct ovni_ev *open;
+
 	/* The first and last events which need sorting */
 	struct ovni_ev *bad0;
 
@@ -306,9 +309,37 @@ rebuild_ring(struct ring *r, long long start, struct ovni_ev *first, struct ovni
 	dbg("rebuilt ring with %lld / %lld misplaced events", nbad, n);
 }
 
+/* Returns 1 if the events from the OU[ marker up to (not including) next
+ * are already in order, so the region is in place and needs no move. */
+static int
+region_in_place(struct sortplan *sp)
+{
+	uint8_t *p = (uint8_t *) sp->open;
+	uint64_t last_clock = sp->open->header.clock;
+
+	while (p < (uint8_t *) sp->next) {
+		struct ovni_ev *ev = (struct ovni_ev *) p;
+		if (ev->header.clock < last_clock)
+			return 0;
+
+		last_clock = ev->header.clock;
+		p += ovni_ev_size(ev);
+	}
+
+	return 1;
+}
+
 static int
 execute_sort_plan(struct sortplan *sp)
 {
+	/* Nothing to do if the region is already sorted: don't look back, as
+	 * the events that precede it may not fit in the ring. */
+	if (region_in_place(sp)) {
+		dbg("region at clock %"PRIu64" already in place",
+				sp->bad0->header.clock);
+		return 0;
+	}
+
 	uint64_t clock0 = sp->bad0->header.clock;
 	dbg("attempt to sort: start clock %"PRIi64, sp->bad0->header.clock);
 
@@ -384,6 +415,7 @@ stream_winsort(struct stream *stream, struct ring *r)
 
 		if (st == 'S' && starts_unsorted_region(ev)) {
 			st = 'U';
+			sp.open = ev;
 		} else if (st == 'U') {
 			/* Ensure that we have at least one unsorted
 			 * event inside the section */
@@ -409,6 +441,7 @@ stream_winsort(struct stream *stream, struct ring *r)
 				/* Clear markers */
 				sp.next = NULL;
 				sp.bad0 = NULL;
+				sp.open = NULL;
 
 				st = 'S';
 			}
